@@ -233,6 +233,57 @@ def case_term(m, k, placement, obs):
 # --------------------------------------------------------------------------------------
 GEN_STATS = {}
 
+# result types that IMPLEMENT error without being the predeclared error (accessor consistency:
+# ReturnsError must be true iff some result is exactly `error`); NotFound / Coded are declared by
+# ERR_TYPES_GO in every source package, os / net are extra stdlib packages of the C14 stream
+# (os.PathError is an ALIAS of fs.PathError: go/types hands mockery a *types.Alias, whose generated name is "v")
+C14_STD = [{"path": "os", "name": "os", "types": [("File", "struct")]},
+           {"path": "net", "name": "net", "types": [("Error", "iface")]}]
+ERR_TYPES_GO = """package %s
+
+// declared by the C14 harness: types that implement error without being error
+type NotFound struct{ What string }
+
+func (e *NotFound) Error() string { return e.What }
+
+type Coded interface {
+	error
+	Code() int
+}
+"""
+
+
+def errlike(rng):
+    return rng.choice([{"k": "ptr", "e": named("", "NotFound")}, named("", "Coded"),
+                       {"k": "ptr", "e": {"k": "alias", "pkg": "os", "n": "PathError", "targs": []}}, named("net", "Error")])
+
+
+def inject_error_like(rng, ifaces, p=0.2):
+    """Some methods get a result that merely implements error (alone, next to other results, or
+    next to a real error)."""
+    for i in ifaces:
+        for mm in i["methods"]:
+            if rng.random() >= p:
+                continue
+            sig = mm["sig"]
+            used = {x["n"] for x in sig["params"]}
+            shape = rng.choice(["alone", "alone", "with_value", "with_error", "named"])
+            e = errlike(rng)
+            if shape == "alone":
+                sig["results"] = [{"n": "", "t": e}]
+            elif shape == "with_value":
+                sig["results"] = [{"n": "", "t": basic(rng.choice(["int", "string", "bool"]))}, {"n": "", "t": e}]
+            elif shape == "with_error":
+                sig["results"] = [{"n": "", "t": e}, {"n": "", "t": basic("error")}]
+            else:
+                n1, n2 = "failure", "count"
+                while n1 in used:
+                    n1 += "R"
+                while n2 in used:
+                    n2 += "R"
+                sig["results"] = [{"n": n2, "t": basic("int")}, {"n": n1, "t": e}]
+            GEN_STATS["errlike"] = GEN_STATS.get("errlike", 0) + 1
+
 
 def gen_module(rng, nsrc, **genkw):
     """One Go module example.com/m with source packages src0..src<n-1> (each an independent
@@ -241,11 +292,13 @@ def gen_module(rng, nsrc, **genkw):
     srcs = []
     base = None
     for k in range(nsrc):
+        genkw.setdefault("std", gen_pkgs.STD + C14_STD)
         genkw.setdefault("wide", 0.15)            # methods with 3-10 long-named parameters (wide accessor strings)
         g = gen_pkgs.DenseGen(rng, **genkw)       # dense multi-mention generic types + name tuples X, X1 (see gen_pkgs.DenseGen)
         mm = g.module(src_name="src%d" % k, **mod_kw)
         for kk, vv in g.stats.items():
             GEN_STATS[kk] = GEN_STATS.get(kk, 0) + vv
+        inject_error_like(rng, mm["ifaces"])
         base = base or mm
         srcs.append({"path": mm["src"]["path"], "name": mm["src"]["name"], "ifaces": mm["ifaces"], "nonascii": mm["nonascii"]})
     return {"mod": MOD, "ext": base["ext"], "std": base["std"], "srcs": srcs}
@@ -260,6 +313,7 @@ def one_src(m, k):
 def write_module(m, root):
     for k in range(len(m["srcs"])):
         gen_pkgs.write_module(one_src(m, k), root)
+        (root / m["srcs"][k]["name"] / "zz_c14_errs.go").write_text(ERR_TYPES_GO % m["srcs"][k]["name"])
     run(["cp", str(REPO / "go.sum"), str(root / "go.sum")], check=True)
 
 
@@ -490,6 +544,88 @@ def expected_flags(sig):
     return "%s %s %s %s %s [%s]" % (b(sig["variadic"] and ps), b(ps), b(rs), b(any(r["t"] == basic("error") for r in rs)), b(ctx0), "return" if rs else "")
 
 
+SLICE_CHECK_GO = """
+// ArgCallListSlice(NoEllipsis) start end must name exactly the parameters start..end-1 of the
+// full call list (end < 0: to the end), with "..." only on the variadic parameter of the source
+func checkSlices(t *testing.T, tag string, reg map[string][]string, want map[string][2]int) {
+	for name, w := range want {
+		v, ok := reg[name]
+		if !ok {
+			t.Errorf("SLICEFAIL %s %s: no slice table", tag, name)
+			continue
+		}
+		var full []string
+		if v[0] != "" {
+			full = strings.Split(v[0], ", ")
+		}
+		if len(full) != w[0] {
+			t.Errorf("SLICEFAIL %s %s: ArgCallListNoEllipsis has %d elements, the source method %d parameters", tag, name, len(full), w[0])
+			continue
+		}
+		for i := 1; i+1 < len(v); i += 2 {
+			var s, e int
+			var kind string
+			if _, err := fmtSscan(v[i], &s, &e, &kind); err != nil {
+				t.Errorf("SLICEFAIL %s %s: bad key %q", tag, name, v[i])
+				continue
+			}
+			if e < 0 {
+				e = len(full)
+			}
+			exp := strings.Join(full[s:e], ", ")
+			if kind == "E" && w[1] == 1 && e == len(full) && e > s {
+				exp += "..."
+			}
+			if v[i+1] != exp {
+				t.Errorf("SLICEFAIL %s %s: ArgCallListSlice%s %s gives %q, expected %q", tag, name, map[string]string{"E": "", "N": "NoEllipsis"}[kind], v[i], v[i+1], exp)
+			}
+		}
+	}
+}
+
+func fmtSscan(x string, s, e *int, kind *string) (int, error) {
+	f := strings.Fields(x)
+	if len(f) != 3 {
+		return 0, errBad
+	}
+	var err error
+	if *s, err = atoi(f[0]); err != nil {
+		return 0, err
+	}
+	if *e, err = atoi(f[1]); err != nil {
+		return 0, err
+	}
+	*kind = f[2]
+	return 3, nil
+}
+
+type badErr struct{}
+
+func (badErr) Error() string { return "bad" }
+
+var errBad = badErr{}
+
+func atoi(x string) (int, error) {
+	neg := strings.HasPrefix(x, "-")
+	x = strings.TrimPrefix(x, "-")
+	if x == "" {
+		return 0, errBad
+	}
+	n := 0
+	for _, c := range x {
+		if c < '0' || c > '9' {
+			return 0, errBad
+		}
+		n = n*10 + int(c-'0')
+	}
+	if neg {
+		n = -n
+	}
+	return n, nil
+}
+"""
+
+
 def value_run(m, root, oracle):
     """Value-level oracle: one test binary that imports every re-emitted package (in-package and
     separate-package placements) and runs the checks the probe registered in ZZ_Vals."""
@@ -504,16 +640,26 @@ def value_run(m, root, oracle):
         return {}
     d = root / "zzrun"
     d.mkdir(exist_ok=True)
-    src = ["package zzrun\n", "import (\n\t\"testing\""] + ['\tp%d "%s"' % (j, path) for j, (_, _, path) in enumerate(regs)] + [")\n",
-           "func TestVals(t *testing.T) {"]
+    src = ["package zzrun\n", "import (\n\t\"strings\"\n\t\"testing\""] + ['\tp%d "%s"' % (j, path) for j, (_, _, path) in enumerate(regs)] + [")\n",
+           SLICE_CHECK_GO, "func TestVals(t *testing.T) {"]
+    byname = {s["name"]: (k, s) for k, s in enumerate(m["srcs"])}
     for j, (name, pl, _) in enumerate(regs):
         src.append('\tfor k, f := range p%d.ZZ_Vals {\n\t\tif !f() {\n\t\t\tt.Errorf("VALFAIL %s %s %%s", k)\n\t\t}\n\t}' % (j, name, pl))
+        # arity and variadic flag of every method, from the SOURCE description
+        k0, s0 = byname[name]
+        want = []
+        for i in selected(s0, pl):
+            for mm in method_set(i, known_ifaces(dict(m, **s0))):
+                want.append('"%s.%s": {%d, %d}' % (i["name"], mm["n"], len(mm["sig"]["params"]), 1 if mm["sig"]["variadic"] else 0))
+        src.append('\tcheckSlices(t, "%s %s", p%d.ZZ_Slices, map[string][2]int{%s})' % (name, pl, j, ", ".join(want)))
     src.append("}\n")
     (d / "run_test.go").write_text("\n".join(src))
     env = dict(os.environ, GOPROXY="off", GOFLAGS="-mod=mod")
     p = run(["go", "test", "-count=1", "-vet=off", "-run", "TestVals", "./zzrun/"], cwd=root, env=env, timeout=900)
     text = (p.stdout + p.stderr).decode(errors="replace")
     res = {}
+    for name, pl, what in re.findall(r"SLICEFAIL (\S+) (\S+) (.*)", text):
+        res.setdefault((name, pl), []).append("slicing accessor: " + what.strip())
     for name, pl, what in re.findall(r"VALFAIL (\S+) (\S+) (\S+)", text):
         res.setdefault((name, pl), []).append("value level: a variadic call built from Call / ArgCallList / ArgCallListSlice delivered the wrong number of variadic elements to %s" % what)
     if p.returncode != 0 and not res:
@@ -928,6 +1074,28 @@ def check(ctx, only=None):
                     "observed_messages": msgs[:10], "module": w, "obligation": "known/C14.json entry " + kid})
                 ctx.violation(rp, nofail=True)
 
+    # ---------------- out-of-range slicing: the model says the Go slice expression panics ----------------
+    if only is None:
+        w = witness_module("lower")            # Low[t any].M(x t): one parameter
+        mark(w)
+        for start, end in ((2, 1), (0, 3), (2, -1)):
+            root = ctx.scratch / ("oob_%d_%d" % (start, end if end >= 0 else 99))
+            write_module(w, root)
+            tp = root / "oob.templ"
+            tp.write_text("{{ range .Interfaces }}{{ range .Methods }}[{{ .ArgCallListSlice %d %d }}]{{ end }}{{ end }}\n" % (start, end))
+            rc, log = run_mockery(ctx, root, config(w, root, tp, DUMP_FILES, ("in",)), "oob")
+            evaluations += 1
+            n, e2 = 1, (1 if end < 0 else end)
+            model_panics = not (start <= e2 <= n)          # C14_slices: None exactly out of range
+            impl_fails = rc != 0 and "slice bounds out of range" in log
+            if model_panics != impl_fails:
+                rp = ctx.write_replay("slice-out-of-range-%d-%d" % (start, end), {
+                    "what": "ArgCallListSlice %d %d on a method with one parameter: model (C14_slices) says %s, mockery %s" % (
+                        start, end, "panic => failed render" if model_panics else "a list", "failed with a slice-bounds panic" if impl_fails else "rendered %r (rc %d)" % (log[-300:], rc)),
+                    "obligation": "correspondence: arg_call_list_slice = None out of range", "module": w,
+                    "template": tp.read_text(), "rendered": (out_path(w, 0, root, "in", DUMP_FILES).read_text() if out_path(w, 0, root, "in", DUMP_FILES).exists() else None)})
+                ctx.violation(rp, nofail=True)
+
     # ---------------- verdicts for proofs / correspondence ----------------
     if not gate["ok"] and not oracle_failed:
         ctx.violation(gate["replay"], nofail=True)
@@ -953,8 +1121,8 @@ def check(ctx, only=None):
     ctx.write_evidence(gate, evaluations, len(nontrivial),
                        "one evaluation = one output file's complete data-model dump compared with the model (every accessor of every method/parameter) or one package x placement type-checked by the re-emission oracle; non-trivial = the file has an aliased import or a name changed by collision resolution; distinct by hash of the dump",
                        samples,
-                       extra={"input_histogram": dict(hist, **{"generator: dense multi-mention types": GEN_STATS.get("dense", 0), "generator: methods with a name tuple X, X1": GEN_STATS.get("tuples", 0), "generator: wide methods (3-10 long-named parameters)": GEN_STATS.get("wide", 0)}), "model_mismatches": len(corr_bad), "oracle_failed": oracle_failed,
-                              "mockery_runs": 2 * len(modules) + (4 if only is None else 0), "phase_seconds": phase},
+                       extra={"input_histogram": dict(hist, **{"generator: dense multi-mention types": GEN_STATS.get("dense", 0), "generator: methods with a name tuple X, X1": GEN_STATS.get("tuples", 0), "generator: wide methods (3-10 long-named parameters)": GEN_STATS.get("wide", 0), "generator: methods with a result that implements error without being error": GEN_STATS.get("errlike", 0)}), "model_mismatches": len(corr_bad), "oracle_failed": oracle_failed,
+                              "mockery_runs": 2 * len(modules) + (7 if only is None else 0), "phase_seconds": phase},
                        assumptions=["go/types method-set completion and method order are recomputed by the harness (exported names by name, then unexported) and are inputs of the model",
                                     "go/parser (harness/go/gotype) is trusted to read Go type expressions; identifier visibility (exported/unexported across packages) is not modelled: interfaces that cannot be named from another package are rendered in-package only",
                                     "template_funcs.Exported is a parameter of the model (property C16); the harness instantiates it for ASCII names",
